@@ -35,6 +35,7 @@ const (
 	kBigSlice
 	kPosInt   // integer >= 1 (length of a non-empty slice)
 	kNonEmpty // slice/string with at least one element
+	kSliceN   // slice/string with exactly c elements
 	kTop
 )
 
@@ -58,6 +59,9 @@ var (
 
 func latInt(n int64) lat { return lat{k: kConst, c: constant.MakeInt64(n)} }
 
+// latSliceLen is a (non-nil) slice or string of exactly n elements with unknown contents.
+func latSliceLen(n int64) lat { return lat{k: kSliceN, c: constant.MakeInt64(n)} }
+
 func (l lat) String() string {
 	switch l.k {
 	case kBot:
@@ -76,6 +80,8 @@ func (l lat) String() string {
 		return "≥1"
 	case kNonEmpty:
 		return "slice[≥1]"
+	case kSliceN:
+		return "slice[" + l.c.String() + "]"
 	}
 	return "⊤"
 }
@@ -84,7 +90,7 @@ func (l lat) eq(m lat) bool {
 	if l.k != m.k {
 		return false
 	}
-	if l.k == kConst {
+	if l.k == kConst || l.k == kSliceN {
 		return l.c.Kind() == m.c.Kind() && constant.Compare(l.c, token.EQL, m.c)
 	}
 	return true
@@ -100,7 +106,7 @@ func join(a, b lat) lat {
 	if a.eq(b) {
 		return a
 	}
-	nn := func(x lat) bool { return x.k == kNonNil || x.k == kBigSlice || x.k == kNonEmpty }
+	nn := func(x lat) bool { return x.k == kNonNil || x.k == kBigSlice || x.k == kNonEmpty || x.k == kSliceN }
 	if nn(a) && nn(b) {
 		return latNonNil
 	}
@@ -117,7 +123,7 @@ func (l lat) isFalse() bool {
 // mayBe* are used to phrase "success" of a return.
 func (l lat) mayBeNil() bool { return l.k == kNil || l.k == kTop }
 func (l lat) mayBeNonNil() bool {
-	return l.k == kNonNil || l.k == kBigSlice || l.k == kNonEmpty || l.k == kTop
+	return l.k == kNonNil || l.k == kBigSlice || l.k == kNonEmpty || l.k == kSliceN || l.k == kTop
 }
 func (l lat) mayBeTrue() bool { return l.isTrue() || l.k == kTop }
 func (l lat) mayBeNonZero() bool {
@@ -1012,6 +1018,8 @@ func convert(x *ssa.Convert, v lat) lat {
 		return latBigSlice
 	case kNonEmpty:
 		return latNonEmpty
+	case kSliceN:
+		return v
 	case kPosInt:
 		return latTop
 	case kBigInt:
@@ -1085,7 +1093,7 @@ func binop(x *ssa.BinOp, a, b lat) lat {
 			switch l.k {
 			case kNil:
 				return 1
-			case kNonNil, kBigSlice, kNonEmpty:
+			case kNonNil, kBigSlice, kNonEmpty, kSliceN:
 				return 2
 			}
 			return 0
@@ -1285,6 +1293,8 @@ func (e *gEngine) call(f *ssa.Function, x *ssa.Call, get func(ssa.Value) lat, de
 				return apply([]lat{latBigInt}, name), false
 			case kNonEmpty:
 				return []lat{latPosInt}, false
+			case kSliceN:
+				return []lat{{k: kConst, c: v.c}}, false
 			case kConst:
 				if v.c.Kind() == constant.String {
 					return []lat{latInt(int64(len(constant.StringVal(v.c))))}, false
